@@ -70,4 +70,12 @@ def pngChunk (crc : Bytes → Nat) (ty data : Bytes) : Bytes :=
 def idatWrap (crc : Bytes → Nat) (pieces : List Bytes) : Bytes :=
   pieces.flatMap (pngChunk crc idatTag)
 
+/-- what may follow the IDAT run: anything that is not itself a well-formed, non-empty IDAT chunk with a
+    matching CRC (such a chunk would belong to the run). After the repair of parse_idat an empty or
+    CRC-failing chunk ends the run instead of rejecting it. -/
+def IdatEnd (crc : Bytes → Nat) (suf : Bytes) : Prop :=
+  suf.length < 12 ∨ (suf.drop 4).take 4 ≠ idatTag ∨ suf.length < ofBe32 (suf.take 4) + 12 ∨
+  ofBe32 (suf.take 4) = 0 ∨
+  crc (idatTag ++ (suf.drop 8).take (ofBe32 (suf.take 4))) ≠ ofBe32 ((suf.drop (ofBe32 (suf.take 4) + 8)).take 4)
+
 end Preflate
